@@ -338,6 +338,62 @@ class Placement(Part):
         return res
 
 
+class ConfigNegatives(Part):
+    name = "flags_switched_off_in_the_config_file"
+    desc = "every boolean flag given a negative value in the config file (every spelling the parser accepts), alone and next to every other flag on the command line: same as the flag being absent"
+
+    FLAGS = ["anonymize-ips", "anonymize-passwords", "undo", "preserve-private-addresses"]
+    NEG = ["false", "False", "FALSE", "no", "No", "0", "off"]
+    CLI = [[], ["-a"], ["-p"], ["-a", "-p"], ["-u"], ["-a", "--preserve-private-addresses"], ["-w", "seattle"]]
+
+    def __init__(self, tier, seed):
+        self.tier, self.seed = tier, seed
+
+    def cases(self):
+        return [{"flag": f} for f in self.FLAGS] + [{"flag": "+".join(p)} for p in itertools.combinations(self.FLAGS, 2)]
+
+    def run(self, case):
+        res = Res()
+        box = Box()
+        flags = case["flag"].split("+")
+        try:
+            for cli in self.CLI:
+                base = ["-i", "{in}", "-o", "{out}", "-s", "saltForTest"] + cli
+                d0 = box.fresh()
+                ref = run_main(d0, base)
+                shutil.rmtree(d0, ignore_errors=True)
+                for neg in (self.NEG if "neg" not in case else [case["neg"]]):
+                    if "cli" in case and case["cli"] != cli:
+                        continue
+                    # (a flag that is also on the command line takes its value from there: a different subject)
+                    if any(("--" + f) in cli or {"anonymize-ips": "-a", "anonymize-passwords": "-p", "undo": "-u"}.get(f) in cli
+                           for f in flags):
+                        continue
+                    cfg = "".join("%s = %s\n" % (f, neg) for f in flags)
+                    d = box.fresh()
+                    got = run_main(d, base + ["-c", "{cfg}"], cfg)
+                    shutil.rmtree(d, ignore_errors=True)
+                    res.evals += 1
+                    rc = {"flag": case["flag"], "neg": neg, "cli": cli}
+                    res.out((neg, got[0], digest_tree(got[1])))
+                    if got[0].startswith("exit:") and ref[0] == "ok":
+                        res.count("negative_spelling_refused_by_parser")   # e.g. 'off': a rejection, nothing written
+                        if got[1] is not None or got[2] is not None:
+                            res.violation("something-written-on-rejected-options|config-negative",
+                                          "config %r argv %r" % (cfg, base), rc)
+                        continue
+                    res.nt((case["flag"], neg, tuple(cli)))
+                    if got[0] != ref[0] or got[1] != ref[1] or (got[2] is None) != (ref[2] is None):
+                        res.violation("flag-switched-off-in-config-not-like-absent|" + case["flag"],
+                                      "config %r with argv %r gives %s/%s; without the config file %s/%s" % (
+                                          cfg, base, got[0], digest_tree(got[1]), ref[0], digest_tree(ref[1])), rc)
+            if "neg" not in case:
+                res.samples.append({"flags": flags, "negative_spellings": self.NEG, "command_lines": len(self.CLI)})
+        finally:
+            box.close()
+        return res
+
+
 def digest_tree(t):
     from mc.runner import digest
 
@@ -467,4 +523,4 @@ class Equivalences(Part):
 
 
 def parts(tier, seed):
-    return [Validation(tier, seed), Placement(tier, seed), Equivalences(tier, seed)]
+    return [Validation(tier, seed), Placement(tier, seed), Equivalences(tier, seed), ConfigNegatives(tier, seed)]
